@@ -1,6 +1,7 @@
 import CDVProofs.LineTable
 import CDVProofs.LineSem
 import CDVProofs.LineSemOld
+import CDVProofs.LineEnc
 /-! # C10 — the line-table codec agrees with CPython for everything its assembler can emit
 
 Property theorems only; helper lemmas live in `CDVProofs/LineTable.lean`.
@@ -52,6 +53,21 @@ theorem C10_decoded_lines_lnotab (b : List Nat) (n : Nat) (heven : b.length % 2 
     ∃ lm, toLineMapping false b n = .ok lm ∧
       ∀ o, o % 2 = 0 → o < n → assoc? o lm.lines = some (some (Spec.lineOfOld b o 0 0)) :=
   decoded_lines_old b n heven hbytes hbc
+
+/-- **Encoding agrees with CPython — 3.10.**  For any non-empty list of per-code-unit lines (any jumps, `None` runs of any
+    length): `from_line_mapping` succeeds and CPython's reader assigns to the `k`-th code unit exactly the `k`-th line.
+    Together with `C10_decoded_lines_310`: decoding the table that was written gives the mapping back, line for line. -/
+theorem C10_encoded_lines_310 (l0 : Option Int) (ls : List (Option Int)) (extra : List (Nat × List Int)) :
+    ∃ table, fromLineMapping true ⟨unitsAt (l0 :: ls) 0, extra⟩ = .ok table ∧
+      ∀ k l, (l0 :: ls)[k]? = some l → Spec.lineOfLT table (2 * k) 0 0 = l :=
+  encoded_lines_310 l0 ls extra
+
+/-- **Encoding agrees with CPython — `co_lnotab`.**  For any list of per-code-unit lines and any recorded zero-width
+    extra entries: `from_line_mapping` succeeds and `PyCode_Addr2Line` assigns to the `k`-th code unit the `k`-th line. -/
+theorem C10_encoded_lines_lnotab (ls : List Int) (extra : List (Nat × List Int)) :
+    ∃ table, fromLineMapping false ⟨unitsAtS ls 0, extra⟩ = .ok table ∧
+      ∀ k l, ls[k]? = some l → Spec.lineOfOld table (2 * k) 0 0 = l :=
+  encoded_lines_lnotab ls extra
 
 /-- the evenness hypothesis is needed, and its failure is a termination finding rather than a wrong line: with an odd
     address the offset counter (which advances by 2) never meets the row, and the loop of the implementation never ends;
